@@ -38,6 +38,10 @@ CHECKS['C05'] = dict(engine='W-sweep', level='fault_enumeration', design='5/C05'
    text='per scenario (a seeded frame nest started by a user command, a disconnect, a call_out or a heart beat: call_other, function pointers, efun callbacks, nested catch, applies made by efuns, loads and clones with failing create(), natural errors) a fault-free run counts the executed instructions and then one simulated run per instruction index injects a catchable LPC error there (all indices up to 400, sampled beyond) plus eval-cost exhaustion at sampled indices; oracles: driver-entry registers (value/control stack depth, error-context depth, command-giver save stack, limit flags) equal the fault-free ones, LPC-level frame check after every catch, the innermost catch yields exactly the injected message, and a fixed probe evaluation afterwards behaves as in the fault-free run. Fault points are enumerated per scenario; scenarios are sampled.',
    note='side effects made before the error are allowed; error sites are instruction boundaries of LPC code (errors raised in the middle of an efun are represented by the natural-error leaves only)',
    technique='deterministic simulation with fault injection (error injected at every executed instruction of seeded frame nests, fork-per-fault-point)')
+CHECKS['C04'] = dict(engine='W-loop', level='exploration', design='5/C04',
+   text='seeded search over limit configurations (evaluation cost, call depth, stack size, array/mapping/string/buffer sizes drawn small) crossed with spenders that are infinite by construction (every loop form, direct/mutual recursion, recursion through function pointers, efun callbacks, call_other, catch) and unbounded builders (operators and efuns that double strings, arrays, mappings, buffers), run as commands, heart beats, call_outs, input_to callbacks and create() with 0-3 catch levels around them; monitors at every instruction (call depth, stack height, size of the value on top of the stack) plus oracles: the run ends, the statement after an infinite spender or its enclosing catch never runs, every limit hit is reported, builder results respect the limits, the next task is served. Sampling, not proof.',
+   note='set_eval_limit/reset_eval_cost excluded; the builder list samples the operator/efun surface (one known finding: sprintf is bounded by its 64 KiB buffer, not by MaxStringLength)',
+   technique='deterministic simulation with fault injection (randomised limit configurations, limit exhaustion at arbitrary points of seeded task kinds, per-instruction invariant monitors)')
 PENDING = 'check not built yet (work in progress, see DESIGN.md section 10)'
 
 def main():
